@@ -25,7 +25,7 @@ def map_json(x, rho):
 
 class C17(InterpProp):
     id = 'C17'
-    quick_cases = 600
+    quick_cases = 1500
     thorough_cases = 20000
     n_ops = 30
     rule = ('(a) random well-formed charts (code not mentioning state names) and a random order-preserving renaming of '
